@@ -21,6 +21,7 @@ ASSUMPTIONS = ["model of the switch: state = last valid assignment (initially Tr
 FLOORS = {"history:switch state follows the model": 1000, "history:invalid input rejected while on": 300,
           "history:valid input accepted while on": 300, "history:no check runs while off": 300,
           "history:same result with checks off": 100}
+ENV_TOGGLES = ("fp_raise", "log_debug")      # the switch is the subject here
 ASSIGN = ["True", "False", "0", "1", "None", "'True'", "np.True_", "np.False_", "[]", "1.0"]
 
 
